@@ -220,7 +220,7 @@ func VerifC10_V2Precedence() {
 }
 
 // VerifC16_ConfigShapes: execution configurations of any shape the JSON
-// decoder can deliver (null relay entries, proposer entry without key) end in an
+// decoder can deliver (null relay entries, null proposer entries, proposer entry without key) end in an
 // error or a usable result, never in a crash.
 func VerifC16_ConfigShapes() {
 	pubkey := phase0.BLSPubKey{7}
@@ -244,6 +244,12 @@ func VerifC16_ConfigShapes() {
 		p.Validator = phase0.BLSPubKey{}
 	}
 	cfg.Proposers = []*ProposerConfig{p}
+	switch vnd.Choose("null-proposer-entry", 3) { // "proposers": [null, {...}] / [{...}, null]
+	case 1:
+		cfg.Proposers = []*ProposerConfig{nil, p}
+	case 2:
+		cfg.Proposers = []*ProposerConfig{p, nil}
+	}
 	_, _ = cfg.ProposerConfig(context.Background(), nil, pubkey, bellatrix.ExecutionAddress{1}, 30000000)
 	vnd.Cover("C16.config.survived")
 }
